@@ -801,6 +801,124 @@ func TestC19(t *testing.T) {
 		gen.Sample("tool", map[string]any{"case": c.desc, "exit": code})
 	})
 
+	// Root-of-trust precedence on its own: a valid quote under PKI A and every combination of config bundle paths,
+	// inline config bundles and the -trusted_roots flag (several paths, equal file names in different directories,
+	// the same path twice). The flag, when given, replaces the config's paths; inline bundles stay in force; with
+	// nothing configured the embedded Intel root is used. Exit 0 iff root A is in the effective set, else 2.
+	gen.Direct(t, "root-of-trust-precedence", func(t *testing.T) {
+		dir := filepath.Join(base, "rot")
+		_ = os.RemoveAll(dir)
+		for _, d := range []string{dir, filepath.Join(dir, "custom"), filepath.Join(dir, "intel")} {
+			if err := os.MkdirAll(d, 0o755); err != nil {
+				gen.HarnessError(t, "mkdir: %v", err)
+			}
+		}
+		pA, pB := gen.NewPKI(gen.PKISpec{Seed: "pki-A"}), gen.NewPKI(gen.PKISpec{Seed: "pki-B"})
+		w := gen.NewWorld(pA, gen.NewStream(gen.Seed()+5, "c19rot"))
+		binary.LittleEndian.PutUint64(w.Q.Xfam[:], gen.XfamFixed1)
+		binary.LittleEndian.PutUint64(w.Q.TdAttr[:], 0)
+		w.Q.TeeTcbSvn[1] = 0
+		w.HonestCollateral()
+		w.Build()
+		wr := func(rel string, b []byte) string {
+			p := filepath.Join(dir, rel)
+			if err := os.WriteFile(p, b, 0o644); err != nil {
+				gen.HarnessError(t, "write %s: %v", p, err)
+			}
+			return p
+		}
+		quote := wr("quote.dat", w.Raw)
+		fileA, fileB := wr("a.pem", pA.Root.PEM), wr("b.pem", pB.Root.PEM)
+		// equal base names in different directories
+		sameB, sameA := wr("custom/root.pem", pB.Root.PEM), wr("intel/root.pem", pA.Root.PEM)
+		type flagCase struct {
+			name  string
+			paths []string
+			hasA  bool
+		}
+		flags := []flagCase{{"none", nil, false}, {"A", []string{fileA}, true}, {"B", []string{fileB}, false}, {"B,A", []string{fileB, fileA}, true}, {"A,B", []string{fileA, fileB}, true},
+			{"B,B", []string{fileB, fileB}, false}, {"A,A", []string{fileA, fileA}, true}, {"custom/root.pem(B),intel/root.pem(A)", []string{sameB, sameA}, true}, {"intel/root.pem(A),custom/root.pem(B)", []string{sameA, sameB}, true}}
+		i := 0
+		for _, cfgPath := range []string{"none", "A", "B"} {
+			for _, cfgInline := range []string{"none", "A", "B"} {
+				for _, fl := range flags {
+					for _, format := range []string{"text", "binary"} {
+						i++
+						if !gen.ShardOwns(i) {
+							continue
+						}
+						c := &c19Case{classes: map[int]string{}, netMode: "unreachable"}
+						c.args = []string{"-inform=bin", "-in=" + quote}
+						rot := &ccpb.RootOfTrust{}
+						hasA := false
+						configured := 0
+						switch cfgPath {
+						case "A":
+							rot.CabundlePaths = []string{fileA}
+						case "B":
+							rot.CabundlePaths = []string{fileB}
+						}
+						if len(fl.paths) > 0 {
+							c.args = append(c.args, "-trusted_roots="+strings.Join(fl.paths, ","))
+							hasA = hasA || fl.hasA
+							configured++
+						} else if cfgPath != "none" {
+							hasA = hasA || cfgPath == "A"
+							configured++
+						}
+						switch cfgInline {
+						case "A":
+							rot.Cabundles = []string{string(pA.Root.PEM)}
+							hasA = true
+							configured++
+						case "B":
+							rot.Cabundles = []string{string(pB.Root.PEM)}
+							configured++
+						}
+						if cfgPath != "none" || cfgInline != "none" || format == "binary" {
+							cfg := &ccpb.Config{RootOfTrust: rot}
+							if format == "text" {
+								b, _ := prototext.Marshal(cfg)
+								c.args = append(c.args, "-config="+wr("config.textproto", b))
+							} else {
+								b, _ := proto.Marshal(cfg)
+								c.args = append(c.args, "-config="+wr("config.pb", b))
+							}
+						}
+						desc := fmt.Sprintf("config paths=%s inline=%s (%s) flag=%s", cfgPath, cfgInline, format, fl.name)
+						want := 2
+						if hasA {
+							want = 0
+						}
+						gen.Eval()
+						code, stderr, err := runTool(tool, c)
+						if err != nil {
+							gen.HarnessError(t, "cannot execute the tool: %v", err)
+						}
+						gen.NonTrivial("rot", desc)
+						gen.Class(fmt.Sprintf("root-of-trust-precedence:exit%d", want))
+						if i%13 == 0 {
+							gen.Sample("root-of-trust-precedence", map[string]any{"case": desc, "exit": code})
+						}
+						if code != want {
+							files := map[string]string{}
+							for _, rel := range []string{"quote.dat", "a.pem", "b.pem", "custom/root.pem", "intel/root.pem", "config.textproto", "config.pb"} {
+								if b, err := os.ReadFile(filepath.Join(dir, rel)); err == nil {
+									files[rel] = hex.EncodeToString(b)
+								}
+							}
+							gen.Fail(t, gen.Violation{Key: fmt.Sprintf("root-of-trust-precedence:exit-%d-instead-of-%d", code, want), Oracle: "exit 0 only if the quote verifies under the EFFECTIVE root of trust: the flag, when given, replaces the config's bundle paths; inline bundles stay; nothing configured = embedded Intel root",
+								Detail: fmt.Sprintf("%s: exit %d, want %d; stderr: %s", desc, code, want, lastLine(stderr)),
+								Replay: map[string]any{"kind": "tool", "args": templArgs(c.args, dir), "desc": []string{desc}, "files": files, "stdin_hex": "", "allowed": []int{want}, "dir": dir}})
+							return
+						}
+					}
+				}
+			}
+		}
+		gen.Exhaustive("3 config path settings x 3 inline settings x 9 flag settings x 2 config formats, quote under root A", true)
+	})
+
 	// Config decoding on its own: a quote that verifies and a config whose content (when it decodes) is satisfied,
 	// so that the ONLY thing deciding between exit 0 and exit 1 is whether the config file is well-formed.
 	gen.Prop(t, "config-decoding", gen.N(250, 8000), func(t *rapid.T) {
@@ -969,6 +1087,7 @@ func init() {
 		defer os.RemoveAll(dir)
 		for name, hx := range c["files"].(map[string]any) {
 			b, _ := hex.DecodeString(hx.(string))
+			_ = os.MkdirAll(filepath.Dir(filepath.Join(dir, name)), 0o755)
 			_ = os.WriteFile(filepath.Join(dir, name), b, 0o644)
 		}
 		cs := &c19Case{}
